@@ -1,3 +1,4 @@
+import PlaybackModel.Source
 /-!
 # File interception (C20) — model of `playback/interception/files/*.py`
 
@@ -64,8 +65,7 @@ def b64 (bs : Bytes) : Bytes := ofNats (b64N (toNats bs))
 def unb64 (bs : Bytes) : Bytes := ofNats (unb64N (toNats bs))
 
 /-- `FileInterception.ABOVE_LIMIT_CONTENT = b'above interception limit'` -/
-def placeholderN : List Nat :=
-  [97, 98, 111, 118, 101, 32, 105, 110, 116, 101, 114, 99, 101, 112, 116, 105, 111, 110, 32, 108, 105, 109, 105, 116]
+def placeholderN : List Nat := PlaybackModel.Source.aboveLimitContentBytes      -- as it stands in the source
 def placeholder : Bytes := ofNats placeholderN
 
 /-! ## size rule and limit -/
@@ -80,13 +80,14 @@ structure Limit where
 /-- `size / (1024.0 * 1024.0) > limit`; `size / 2^20` is exact in binary64 for every file size below 2^53 and Python
 compares a float with an int or a float exactly, so the comparison is one of exact rationals -/
 def aboveLimit (size : Nat) (lim : Limit) : Bool :=
-  decide (lim.num * (2 ^ 20 : Nat) < (size : Int) * lim.den)
+  PlaybackModel.Atoms.Cmp.int PlaybackModel.Source.fileAboveCmp ((size : Int) * lim.den) (lim.num * (2 ^ 20 : Nat))
+  -- the operator as it stands in the source; the theorems need it to mean `>` (PlaybackProofs: aboveLimit_def)
 
 /-- `int(float(os.getenv('PLAYBACK_INTERCEPTED_FILE_SIZE_LIMIT', "500")))`: the value of `float(text)` arrives as its
 exact ratio; `int(·)` truncates toward zero -/
 def envLimit (env : Option (Int × Nat)) : Int :=
   match env with
-  | none => 500
+  | none => (PlaybackModel.Source.defaultFileLimit : Nat)      -- as it stands in the source
   | some (n, d) => Int.tdiv n d
 
 /-- `_calculate_max_intercepted_size_limit`: an explicit limit wins (even `0`), else the environment -/
